@@ -80,6 +80,10 @@ type Exec struct {
 	recentSeen map[Term]bool
 	rets   []retInfo
 	defers []*ssa.Defer
+	indexPhis map[*ssa.Phi]bool // phis that are the counter of a canonical index loop
+	parent     *Exec           // the frame this one was inlined into
+	siteTop    ssa.Instruction // the call in the top function through which this inlined frame was entered
+	inlineSite ssa.Instruction
 	depth  int
 	stack  []string
 	loops  map[*ssa.BasicBlock]*loopInfo
@@ -306,10 +310,11 @@ func ghostKey(name string) string {
 
 // bumpGhosts increments the ghost counters that count this callee.
 func (ex *Exec) bumpGhosts(callee string) {
-	if ex != ex.top || ex.fc == nil {
+	pf := ex.patternFrame()
+	if pf == nil || pf.fc == nil {
 		return
 	}
-	for _, g := range ex.fc.Ghosts {
+	for _, g := range pf.fc.Ghosts {
 		if strings.Contains(callee, g.Callee) {
 			k := ghostKey(g.Name)
 			old := ex.c.memRaw(ex.cur, k)
@@ -321,10 +326,94 @@ func (ex *Exec) bumpGhosts(callee string) {
 type rangeInv struct {
 	phi   *ssa.Phi
 	limit Term
+	index bool // `for i := 0; i < L; i++` rather than `for i := range s`
 }
 
 func (ri *rangeInv) holds(idx Term) Term {
+	if ri.index {
+		return and(app("bvsle", bvLit(64, 0), idx), app("bvsle", idx, ri.limit))
+	}
 	return and(app("bvsle", app("bvneg", bvLit(64, 1)), idx), app("bvslt", idx, ri.limit))
+}
+
+// indexLoop recognises the explicit form of the same loop,
+//   header: i = phi [0, i+1]; if i < L     (L = len(x) of a value defined outside the loop, or defined outside)
+// so that a loop rewritten from `range` to an index keeps its automatic
+// invariant (0 <= i <= L) and the name `rangeindex` (= i - 1) in clauses.
+func (ex *Exec) indexLoop(h *ssa.BasicBlock) *rangeInv {
+	iff, ok := h.Instrs[len(h.Instrs)-1].(*ssa.If)
+	if !ok {
+		return nil
+	}
+	cmp, ok := iff.Cond.(*ssa.BinOp)
+	if !ok || cmp.Op != token.LSS {
+		return nil
+	}
+	phi, ok := cmp.X.(*ssa.Phi)
+	if !ok || phi.Block() != h || len(phi.Edges) != 2 {
+		return nil
+	}
+	if b, ok := phi.Type().Underlying().(*types.Basic); !ok || b.Kind() != types.Int {
+		return nil
+	}
+	li := ex.loops[h]
+	zero, inc := 0, 0
+	for i, e := range phi.Edges {
+		fromLoop := li.body[h.Preds[i]]
+		if k, ok := e.(*ssa.Const); ok && !fromLoop && k.Value != nil && k.Int64() == 0 {
+			zero++
+		}
+		if b, ok := e.(*ssa.BinOp); ok && fromLoop && b.Op == token.ADD && b.X == phi {
+			if k, ok := b.Y.(*ssa.Const); ok && k.Value != nil && k.Int64() == 1 {
+				inc++
+			}
+		}
+	}
+	if zero != 1 || inc != 1 {
+		return nil
+	}
+	outside := func(x ssa.Value) bool {
+		in, ok := x.(ssa.Instruction)
+		return !ok || in.Block() == nil || !li.body[in.Block()]
+	}
+	var lim Term
+	switch y := cmp.Y.(type) {
+	case *ssa.Call:
+		b, ok := y.Call.Value.(*ssa.Builtin)
+		if !ok || b.Name() != "len" || len(y.Call.Args) != 1 {
+			return nil
+		}
+		a, ok := ex.vals[y.Call.Args[0]]
+		if !ok {
+			// len(p.f) / len(*v) re-read in the header: the value at loop
+			// entry (if the loop changes it the range-preserve obligation
+			// fails; nothing is assumed that is not proved)
+			a, ok = ex.entryLoad(y.Call.Args[0], outside)
+		}
+		if !ok || a.Len == "" {
+			return nil
+		}
+		lim = a.Len
+	default:
+		if !outside(cmp.Y) {
+			return nil
+		}
+		lv, ok := ex.vals[cmp.Y]
+		if !ok {
+			if _, isC := cmp.Y.(*ssa.Const); !isC {
+				return nil
+			}
+			lv = ex.val(cmp.Y)
+		}
+		lim = lv.T
+		// the limit must be non-negative for 0 <= i <= L to hold initially:
+		// that is the range-init obligation
+	}
+	if ex.indexPhis == nil {
+		ex.indexPhis = map[*ssa.Phi]bool{}
+	}
+	ex.indexPhis[phi] = true
+	return &rangeInv{phi: phi, limit: lim, index: true}
 }
 
 // rangeInvariant recognises the go/ssa shape of a range-over-slice loop:
@@ -341,7 +430,7 @@ func (ex *Exec) rangeInvariant(h *ssa.BasicBlock) *rangeInv {
 		}
 	}
 	if phi == nil {
-		return nil
+		return ex.indexLoop(h)
 	}
 	iff, ok := h.Instrs[len(h.Instrs)-1].(*ssa.If)
 	if !ok {
@@ -376,6 +465,41 @@ var _ = token.ADD
 
 type unusedRange struct{}
 
+
+// entryLoad evaluates `*v` or `*(&p.f)` for v / p defined outside the loop,
+// in the memory state in which the loop is entered.
+func (ex *Exec) entryLoad(x ssa.Value, outside func(ssa.Value) bool) (Val, bool) {
+	u, ok := x.(*ssa.UnOp)
+	if !ok || u.Op != token.MUL {
+		return Val{}, false
+	}
+	et := u.X.Type().Underlying().(*types.Pointer).Elem()
+	switch a := u.X.(type) {
+	case *ssa.FieldAddr:
+		if !outside(a.X) {
+			return Val{}, false
+		}
+		base, ok := ex.vals[a.X]
+		if !ok || base.K != KRef || base.EP != nil {
+			return Val{}, false
+		}
+		pt := a.X.Type().Underlying().(*types.Pointer)
+		v := ex.c.load(ex.cur, ex.c.fieldAddr(base.T, pt.Elem(), a.Field), et)
+		v.Typ = et
+		return v, true
+	default:
+		if !outside(u.X) {
+			return Val{}, false
+		}
+		base, ok := ex.vals[u.X]
+		if !ok || base.K != KRef || base.EP != nil {
+			return Val{}, false
+		}
+		v := ex.c.load(ex.cur, base.T, et)
+		v.Typ = et
+		return v, true
+	}
+}
 
 type loopInfo struct {
 	header *ssa.BasicBlock
@@ -726,6 +850,7 @@ func (ex *Exec) enterLoop(h *ssa.BasicBlock, li *loopInfo, preds []*ssa.BasicBlo
 	if li.spec == nil && ex.fc != nil && ex.fc.Options["loops"] == "required" {
 		unsup("loop %d has no invariant", li.index)
 	}
+	auto := ex.rangeInvariant(h)
 	// 1. invariant on entry: phi values are the values along the entry edges
 	env := ex.loopEnv(h, func(phi *ssa.Phi) Val {
 		v := ex.phiEdgeVal(phi, h, preds[len(preds)-1])
@@ -751,7 +876,6 @@ func (ex *Exec) enterLoop(h *ssa.BasicBlock, li *loopInfo, preds []*ssa.BasicBlo
 		}
 	}
 	// automatic invariant of `for i := range s` loops: -1 <= rangeindex < len
-	auto := ex.rangeInvariant(h)
 	if auto != nil {
 		v := ex.phiEdgeVal(auto.phi, h, preds[len(preds)-1])
 		for i := len(preds) - 2; i >= 0; i-- {
@@ -815,6 +939,13 @@ func (ex *Exec) loopEnv(h *ssa.BasicBlock, phiVal func(*ssa.Phi) Val, mem *MemSt
 		if phi.Comment != "" {
 			if _, clash := env.vars[phi.Comment]; !clash {
 				env.vars[phi.Comment] = v
+			}
+		}
+		if ex.indexPhis[phi] {
+			if _, clash := env.vars["rangeindex"]; !clash {
+				ri := v
+				ri.T = app("bvsub", v.T, bvLit(64, 1))
+				env.vars["rangeindex"] = ri
 			}
 		}
 	}
@@ -935,6 +1066,13 @@ func (ex *Exec) bindDominating(env *Env, at ssa.Instruction) {
 		}
 		if _, clash := env.vars[val.Name()]; !clash {
 			env.vars[val.Name()] = x
+		}
+		if ph, ok := val.(*ssa.Phi); ok && ex.indexPhis[ph] {
+			if _, clash := env.vars["rangeindex"]; !clash {
+				ri := x
+				ri.T = app("bvsub", x.T, bvLit(64, 1))
+				env.vars["rangeindex"] = ri
+			}
 		}
 	}
 	ex.bindDebugNames(env, blk)
